@@ -271,7 +271,7 @@ func ecdsaPrivArg(ex *absint.Exec, st *absint.State, prog *load.Program, dP *sym
 // c13Invariant: every constructor of the Schnorr key types establishes the key-type invariant.
 func c13Invariant(c *Ctx, prog *load.Program, rule string) {
 	c10WhoWrites(c, prog, rule, models.BitcoinPkg, map[string][]string{
-		"SchnorrPublicKey":  {models.BitcoinPkg + ".NewSchnorrPublicKey", models.BitcoinPkg + ".NewSchnorrPublicKeyFromPoint", models.BitcoinPkg + ".NewSchnorrPrivateKeyFromECDSA"},
+		"SchnorrPublicKey":  {models.BitcoinPkg + ".NewSchnorrPublicKey", models.BitcoinPkg + ".NewSchnorrPublicKeyFromPoint", models.BitcoinPkg + ".NewSchnorrPublicKeyFromECDSA", models.BitcoinPkg + ".NewSchnorrPrivateKeyFromECDSA"},
 		"SchnorrPrivateKey": {models.BitcoinPkg + ".NewSchnorrPrivateKeyFromECDSA"},
 	})
 	facts := &models.PointFacts{NonIdentity: map[*sym.Term]bool{}}
@@ -320,6 +320,56 @@ func c13Invariant(c *Ctx, prog *load.Program, rule string) {
 				}
 			}
 			c.R.Decide(vok, rule, "ctor/NewSchnorrPublicKeyFromPoint/value", pos, "stores a fresh copy of P or -P with even y and xBytes = Bytes(x) of the stored point", "constructed key differs: "+vdetail)
+		}
+	}
+	// --- NewSchnorrPublicKeyFromECDSA: the even-y representative of the ECDSA key's point, as a fresh copy
+	{
+		name := models.BitcoinPkg + ".NewSchnorrPublicKeyFromECDSA"
+		Q := symPt("Q")
+		facts.NonIdentity = map[*sym.Term]bool{}
+		r := RunFn(prog, protoSet(facts), name, &RunOpts{Args: named("pk"), Pre: func(ex *absint.Exec, st *absint.State, args []absint.Val) {
+			pk := newPublicKeyObj(ex, st, prog, Q)
+			pk.Obj.Origin = absint.Origin{Kind: "param", Root: "pk"}
+			if pp, ok := st.Resolve(ex.LoadLeaf(st, ex.FieldPtr(pk, FieldIndex(prog, models.SececPkg, "PublicKey", "point")))).(*absint.Ptr); ok {
+				pp.Obj.Origin = absint.Origin{Kind: "param", Root: "pk.point"}
+			}
+			args[0] = pk
+			st.Assume(models.IsIdentity(Q, nil), false, "a PublicKey never holds the identity (C10)")
+		}})
+		pos := PosOf(prog, r.Fn)
+		if p := runComplete(r); p != "" || r.Fn == nil || r.Out.Ret == nil {
+			c.R.Unknown(rule, "ctor/NewSchnorrPublicKeyFromECDSA", pos, p)
+		} else {
+			for _, pn := range r.Ex.Panics {
+				c.R.Fail(rule, "ctor/NewSchnorrPublicKeyFromECDSA/no-panic", PosStr(prog, pn.Pos), "a panic is reachable: "+pn.Msg)
+			}
+			odd := models.Odd(models.YCoord(Q))
+			res := r.Result(0)
+			st := r.Final()
+			ok, detail := CheckUnder(fOr(FTerm(odd), fNot(FTerm(odd))), []absint.Val{res}, nil, func(asg map[*sym.Term]bool) string {
+				pk, ok := resolveChoice(res, asg).(*absint.Ptr)
+				if !ok {
+					return "no key object"
+				}
+				want := Q
+				if asg[sym.Canon(odd)] {
+					want = sym.Neg(Q)
+				}
+				ptV := resolveChoice(fieldVal(r.Ex, st, pk, prog, models.BitcoinPkg, "SchnorrPublicKey", "point"), asg)
+				pt := loadPtrTerm(r.Ex, st, ptV)
+				if pt == nil || !sym.Equal(ResolveIte(pt, asg), want) {
+					return "stored point is " + absint.ValString(pt) + ", expected the even-y representative"
+				}
+				if pp, _ := ptV.(*absint.Ptr); pp == nil || pp.Obj.Origin.Kind != "local" {
+					return "the stored point object is the ECDSA key's, not a copy"
+				}
+				xb := bytesUnder(r.Ex, st, resolveChoice(bytesField(r.Ex, st, pk, prog, models.BitcoinPkg, "SchnorrPublicKey", "xBytes"), asg), asg)
+				if xb == nil || !sym.Equal(xb, models.ToBytes(sym.Fp, models.XCoord(want))) {
+					return "xBytes is " + absint.ValString(xb)
+				}
+				return ""
+			})
+			c.R.Decide(ok, rule, "ctor/NewSchnorrPublicKeyFromECDSA/value", pos, "stores a fresh copy of Q or -Q with even y and xBytes = Bytes(x) of the stored point", "constructed key differs: "+detail)
 		}
 	}
 	// --- NewSchnorrPrivateKeyFromECDSA
